@@ -112,9 +112,17 @@ def run_case(case):
     if fr[0] == "exc":
         return dict(nontrivial=True, outcome="fcfs-exc", violations=[viol("fcfs:" + fr[1], "fcfs raised " + fr[2])])
     fc = fr[1].structure
+    # the library's first-come-first-served notation is the yardstick of every fallback below: it is itself compared with the reference assignment
+    # (every stem, in 5'->3' order, on the lowest level not taken by an earlier stem that crosses it)
+    fdec, fprobs = ref2d.decode(fc)
+    flev = ref2d.stem_levels(stems, fdec) if not fprobs else None
+    pre = []
+    if fprobs or flev is None or None in flev or list(flev) != list(fcl):
+        pre.append(viol("fcfs:not-first-come-first-served", "BpSeq.fcfs gives %s, the first-come-first-served assignment of the stems %s is %s" % (fc, stems, list(fcl)), fc, list(fcl)))
     opt = ref2d.optimum(stems, graph)
     states = transitions = traces = called = 0
     seen_out = set()
+    out.extend(pre)
     for conf in configurations():
         kind, beh = conf
         eff = beh if beh in seams.BEHAVIOURS else ("raise" if beh == "absent-binary" else "none")
